@@ -409,3 +409,24 @@ m('M40e', 'C16', 'C16.subscriber-protocol', 'publisher.h',
         _q->leave(_h);
     }""", """    ~subscriber() {
     }""", 'subscriber never leaves')
+m('M41', 'C17', 'C17.charge', 'shared_future.h',
+  """       _ptr = ptr;
+       if (!(ptr->operator co_await()).subscribe(&ptr->resolve_tracer)) {
+           _ptr = nullptr;
+      }""", """       if (!(ptr->operator co_await()).subscribe(&ptr->resolve_tracer)) {
+           _ptr = nullptr;
+      } else _ptr = ptr;""", 'self reference after subscribe')
+m('M41b', 'C17', 'C17.default-state', 'shared_future.h',
+  "        if (!_ptr) _ptr = std::make_shared<future_internal>();", "        if (_ptr) _ptr = std::make_shared<future_internal>();", 'revert of the init_if_needed fix')
+m('M41c', 'C17', 'C17.tracer-first', 'shared_future.h',
+  """        auto p = _ptr->get_promise();
+        _ptr->resolve_tracer.charge(_ptr);
+        return p;""", """        auto p = _ptr->get_promise();
+        return p;""", 'get_promise does not charge the tracer')
+m('M41d', 'C17', 'C17.default-state', 'shared_future.h',
+  """        if (_ptr) return _ptr->ready();
+        else return false;""", """        return _ptr->ready();""", 'ready derefs null')
+m('M41e', 'C17', 'C17.charge', 'shared_future.h',
+  """       if (!(ptr->operator co_await()).subscribe(&ptr->resolve_tracer)) {
+           _ptr = nullptr;
+      }""", """       (void)(ptr->operator co_await()).subscribe(&ptr->resolve_tracer);""", 'refused registration keeps self reference')
